@@ -30,6 +30,7 @@ import GraphiqModel.Proofs.MetricsHistReach
 import GraphiqModel.Proofs.MetricsHist
 import GraphiqModel.Proofs.MetricsHistFuse
 import GraphiqModel.Proofs.MetricsHistCheck
+import GraphiqModel.Proofs.MetricsHistWires
 namespace Graphiq.C12
 open Graphiq Graphiq.Dag Graphiq.Metrics Relation
 
@@ -610,6 +611,62 @@ theorem group_is_fuse_of_runs_on_wired_wires {c : Dag} {P : Reg → List NodeId}
       c.groupOneQubitGates.1.regs = c.regs ∧
       ∀ r, wiredWire c.groupOneQubitGates.1 P' r = fuseWire r (wiredWire c P r) :=
   groupOneQubitGates_wiredWire g hh
+
+/-- **`unwrap_nodes` on the wire sequences as wired**: succeeds, and every wire carries the flatMap-unwrap of what it carried
+    (the classical threading of the other operations is unchanged) -/
+theorem unwrap_nodes_is_flatMap_on_wired_wires {c : Dag} {P : Reg → List NodeId} (g : Good c P) (hpl : AllPlain c) :
+    c.unwrapNodes.2 = none ∧ ∃ P', Good c.unwrapNodes.1 P' ∧ AllPlain c.unwrapNodes.1 ∧
+      ∀ r, wiredWire c.unwrapNodes.1 P' r = (wiredWire c P r).flatMap Op.unwrap :=
+  unwrapNodes_wiredWire g hpl
+
+/-- **`remove_identity` on the wire sequences as wired**: succeeds, and every wire carries its non-identity operations, in order -/
+theorem remove_identity_is_filter_on_wired_wires {c : Dag} {P : Reg → List NodeId} (g : Good c P) (hpl : AllPlain c) :
+    c.removeIdentity.2 = none ∧ ∃ P', Good c.removeIdentity.1 P' ∧ AllPlain c.removeIdentity.1 ∧
+      ∀ r, wiredWire c.removeIdentity.1 P' r = (wiredWire c P r).filter (fun o => !decide (o.kind = .identity)) :=
+  removeIdentity_wiredWire g hpl
+
+/-- the three rewrites of the API (no node argument) -/
+inductive Rewrite where
+  | unwrapNodes | removeIdentity | groupOneQubitGates
+
+def Rewrite.toEdit : Rewrite → Edit
+  | .unwrapNodes => .unwrapNodes
+  | .removeIdentity => .removeIdentity
+  | .groupOneQubitGates => .groupOneQubitGates
+
+/-- the list edit of a rewrite on the operation sequence of the wire of register `r` -/
+def Rewrite.onWire (r : Reg) : Rewrite → List Op → List Op
+  | .unwrapNodes, l => l.flatMap Op.unwrap
+  | .removeIdentity, l => l.filter (fun o => !decide (o.kind = .identity))
+  | .groupOneQubitGates, l => fuseWire r l
+
+/-- **any sequence of rewrites, on the wires as wired**: starting from a circuit satisfying DagInv with graphiq-constructed
+    operations, no call raises, and the operation sequence of every wire at the end is obtained from the one at the start by
+    applying the rewrites' list edits in order — a closed-form interpreter for rewrite histories (the node identities created on the
+    way do not appear) -/
+theorem rewrite_history_on_wired_wires (rws : List Rewrite) : ∀ {c : Dag} {P : Reg → List NodeId}, Good c P → GroupHyp c →
+    ∃ P', Good (run c (rws.map Rewrite.toEdit)) P' ∧ GroupHyp (run c (rws.map Rewrite.toEdit)) ∧
+      (run c (rws.map Rewrite.toEdit)).regs = c.regs ∧
+      ∀ r, wiredWire (run c (rws.map Rewrite.toEdit)) P' r = rws.foldl (fun l rw => rw.onWire r l) (wiredWire c P r) := by
+  induction rws with
+  | nil => intro c P g hh; exact ⟨P, g, hh, rfl, fun _ => rfl⟩
+  | cons rw rest ih =>
+    intro c P g hh
+    cases rw with
+    | unwrapNodes =>
+      obtain ⟨_, P1, g1, _, hw1⟩ := unwrapNodes_wiredWire g hh.plain
+      obtain ⟨_, _, hr1⟩ := unwrapNodes_good g
+      obtain ⟨P2, g2, hh2, hr2, hw2⟩ := ih g1 (unwrapNodes_groupHyp g hh)
+      exact ⟨P2, g2, hh2, hr2.trans hr1, fun r => (hw2 r).trans (by rw [hw1 r]; rfl)⟩
+    | removeIdentity =>
+      obtain ⟨_, P1, g1, _, hw1⟩ := removeIdentity_wiredWire g hh.plain
+      obtain ⟨_, _, hr1⟩ := removeIdentity_good g
+      obtain ⟨P2, g2, hh2, hr2, hw2⟩ := ih g1 (removeIdentity_groupHyp g hh)
+      exact ⟨P2, g2, hh2, hr2.trans hr1, fun r => (hw2 r).trans (by rw [hw1 r]; rfl)⟩
+    | groupOneQubitGates =>
+      obtain ⟨_, P1, g1, hh1, hr1, hw1⟩ := groupOneQubitGates_wiredWire g hh
+      obtain ⟨P2, g2, hh2, hr2, hw2⟩ := ih g1 hh1
+      exact ⟨P2, g2, hh2, hr2.trans hr1, fun r => (hw2 r).trans (by rw [hw1 r]; rfl)⟩
 
 /-- … evaluated in the kernel on the circuit of §8 with a measurement inserted by `insert_at` (classical register `c0` left
     unthreaded) before the last gate of `e0`: every wire of the grouped circuit, as `reg_gate_history` returns it, carries `fuseWire`
